@@ -134,7 +134,16 @@ def gen_plan(seed, tier):
       # an indicator that does not exist in the store (beyond either end): reading it fails
       # inside the preprocessor - array-like, nested list or callable alike
       ops[-1]["oob"] = dict(pos=r.random(), beyond=r.randint(0, 3), neg=r.random() < 0.3)
-  return dict(run_seed=seed, dataset=desc, cls=name, params=p, pre=pre, ops=ops, int_store=int_store)
+  plan = dict(run_seed=seed, dataset=desc, cls=name, params=p, pre=pre, ops=ops, int_store=int_store)
+  rt = substream(seed, "c05-tail")
+  if pre != "store" and int_store is None and rt.random() < 0.25 and \
+      not any(o["op"] in ("swap_pre", "mutate_pre") for o in ops):
+    # a preallocated buffer whose unfilled tail holds NaN: rows no indicator ever selects
+    plan["nan_tail"] = rt.randint(1, 4)
+    for o in ops:
+      if isinstance(o.get("idx"), dict):
+        o["idx"].pop("negative", None)
+  return plan
 
 
 # ------------------------------------------------------------------ execution
@@ -314,6 +323,13 @@ def run_plan(plan):
     pre = D.S.copy()
   else:
     pre = D.S.tolist()
+  n_total = D.N
+  if plan.get("nan_tail") and store is None:
+    tail = np.full((int(plan["nan_tail"]), D.d), np.nan)
+    full = np.vstack([np.asarray(D.S, dtype=float), tail])
+    pre = full if plan["pre"] == "ndarray" else full.tolist()
+    n_total = len(full)
+    cov["preprocessor_with_nan_tail"] += 1
   A = cls_of(name)(preprocessor=pre, **pa)
   B = cls_of(name)(**pb)
   a_defined = False
@@ -378,7 +394,7 @@ def run_plan(plan):
       if oob and kind != "fit" and not a_defined:
         oob = None      # not fitted (the last fit failed): NotFittedError comes first, legitimately
       if oob:
-        ai = _with_oob(ai, oob, D.N)
+        ai = _with_oob(ai, oob, n_total)
         if ai is None:
           oob = None
       a_args = ai if op["form"] == "indices" else tuple(copy.deepcopy(x) for x in bf)
